@@ -2,7 +2,8 @@
    Only statements, [exact], and Print Assumptions live here. *)
 From Coq Require Import List NArith Arith.
 From DS Require Import Base.Bytes Base.Hash Base.Sched Model.Pool Model.VerifyIndex
-     Proofs.PoolProofs Proofs.VerifyIndexProofs.
+     Proofs.PoolProofs Proofs.VerifyIndexProofs
+     Model.PoolTrace Proofs.PoolTraceProofs.
 Import ListNotations.
 
 (* The feeder's batching (batch = chunks/(10n), generated from verifyindex.go) hands every
@@ -79,3 +80,32 @@ Proof. vm_compute. reflexivity. Qed.
 Example C17_example_batches : option_map (map (@length nat)) (batches 2 (seq 0 23)) =
   Some [2; 2; 2; 2; 2; 2; 2; 2; 2; 2; 2; 1].
 Proof. vm_compute. reflexivity. Qed.
+
+(* TRACE VALIDATION of the worker-pool model against verifyindex.go (Model/PoolTrace.v).  The verif
+   build reports every receive, result, exit and the feeder's stop; [replay] follows the recorded
+   sequence on Pool.step, applying early the receives whose record is late (the feeder sends the
+   batches in order).  An accepted trace is an execution of the model: the schedule returned is a
+   run of enabled steps from the state the replay started in, so the all-schedules theorems above
+   apply to the run the code actually performed. *)
+Theorem C17_pool_trace_valid : forall njobs job_ok tr s early s' sched,
+  replay njobs job_ok tr s early = Some (s', sched) ->
+  run_strict (Pool.step njobs job_ok true) sched s = Some s'.
+Proof. exact replay_sound. Qed.
+Print Assumptions C17_pool_trace_valid.
+
+(* a matched receive: the batch is the next one to hand out and the worker is then busy with it *)
+Theorem C17_trace_take_sound : forall njobs job_ok s w k s',
+  take njobs job_ok s w k = Some s' ->
+  fed s = k /\ fed s' = S k /\ nth_error (workers s') w = Some (Busy k).
+Proof. exact label_take_sound. Qed.
+Print Assumptions C17_trace_take_sound.
+
+(* Non-vacuity: two workers, two batches; worker 1's receive of batch 1 is recorded before worker
+   0's receive of batch 0 (late record); accepted, all exited, result nil.  The same trace with
+   the feeder reported as interrupted is refused. *)
+Example C17_trace_example :
+  let tr b := [PTake 1 1; PTake 0 0; POk 0 0; POk 1 1; PClose b; PExit 0; PExit 1] in
+  option_map (fun r => (final (fst r), pool_result (fst r), snd r)) (replay 2 (fun _ => true) (tr false) (Pool.init 2) [])
+    = Some (true, RNil, [Worker 0; Worker 1; Worker 0; Worker 1; Feeder; Worker 0; Worker 1]) /\
+  replay 2 (fun _ => true) (tr true) (Pool.init 2) [] = None.
+Proof. vm_compute. split; reflexivity. Qed.
